@@ -124,6 +124,23 @@ def run(ck):
                 await cmd(f"Light.set_hs_color hue({h})", lambda h=h: li.set_hs_color((h, 50)), lambda: (li.current_hs_color or (None, None))[0], {"pipe": "scale", "v": h * 10, "U": 10, "from": 0, "to": 360})
                 s_ = rnd.choice((0, 1, 50, 99, 100, rnd.randrange(101)))
                 await cmd(f"Light.set_hs_color saturation({s_})", lambda s_=s_: li.set_hs_color((10, s_)), lambda: (li.current_hs_color or (None, None))[1], {"pipe": "scale", "v": s_ * 10, "U": 10, "from": 0, "to": 100})
+            # ---- xyY: sequences of commands (the light merges every value into the last valid one), zero and extreme components included
+            prev = None
+            for _ in range(40 if quick else 600):
+                col = rnd.choice([(0.0, 0.0), (1.0, 1.0), (0.0, 1.0), (round(rnd.random(), 4), round(rnd.random(), 4)), None if prev is not None else (0.5, 0.5)])
+                br = rnd.choice([0, 0, 1, 120, 255, rnd.randrange(256), None if prev is not None and col is not None else 7])
+                if col is None and br is None:
+                    continue
+                want_col = col if col is not None else prev[0]
+                want_br = br if br is not None else prev[1]
+                prev = (want_col, want_br)
+
+                def read_xyy():
+                    v = li2.current_xyy_color
+                    return None if v is None or v.color is None else (round(v.color[0], 3), round(v.color[1], 3), v.brightness)
+
+                await cmd(f"Light.set_xyy_color(XYYColor({col}, {br})) after {prev}", lambda col=col, br=br: li2.set_xyy_color(XYYColor(col, br)), read_xyy,
+                          {"pipe": "exact", "want": (round(want_col[0], 3), round(want_col[1], 3), want_br)})
             # ---- cover positions and angles, both orientations
             for invp in (False, True):
                 for inva in (False, True):
@@ -146,7 +163,7 @@ def run(ck):
             cl = add(Climate(xknx, "cl", group_address_target_temperature=ga(), min_temp=7, max_temp=35))
             for t in (7, 7.5, 18, 20.46, 21, 21.5, 22.22, 35):
                 await cmd(f"Climate.set_target_temperature({t})", lambda t=t: cl.set_target_temperature(t), lambda: cl.target_temperature.value, {"pipe": "step", "v": round(t * 100), "U": 100, "step": f16step(t)})
-            for mode, step in ((SetpointShiftMode.DPT6010, 0.1), (SetpointShiftMode.DPT6010, 0.5), (SetpointShiftMode.DPT6010, 1.0), (SetpointShiftMode.DPT6010, 0.2), (SetpointShiftMode.DPT9002, 0.1)):
+            for mode, step in ((SetpointShiftMode.DPT6010, 0.1), (SetpointShiftMode.DPT6010, 0.5), (SetpointShiftMode.DPT6010, 1.0), (SetpointShiftMode.DPT6010, 0.2), (SetpointShiftMode.DPT6010, 0.25), (SetpointShiftMode.DPT6010, 0.05), (SetpointShiftMode.DPT9002, 0.1)):
                 for writable_target in (True, False):
                     g_t, g_ts, g_s = ga(), ga(), ga()
                     cs = add(Climate(xknx, f"cs{mode}{step}{writable_target}", group_address_target_temperature=g_t if writable_target else None,
@@ -160,8 +177,8 @@ def run(ck):
                     await settle()
                     U = 100
                     stp = round(step * U) if mode is SetpointShiftMode.DPT6010 else 1
-                    shifts = [k * step for k in range(-12, 13)] + [0.3, -0.3, 0.7, 1.3, 2.9, -2.9, 0.05, 0.15, 0.25, 1.25, -1.25, 0.34, 0.36]
-                    for sh in shifts if not quick else shifts[::2] + [0.3, 0.7, 2.9]:
+                    shifts = [k * step for k in range(-12, 13)] + [0.3, -0.3, 0.7, 1.3, 2.9, -2.9, 0.05, 0.15, 0.25, 0.75, 1.25, -1.25, 0.34, 0.36]
+                    for sh in shifts if not quick else shifts[::2] + shifts[1:8:2] + [0.3, 0.7, 2.9, 0.25, 0.75]:
                         sh = round(sh, 2)
                         if abs(sh) > 6:
                             continue
